@@ -258,6 +258,25 @@ def run_oracles(prog, meta, sessions):
                 if allok:
                     out.append(('C02', 'executed-with-consistent-dependencies', '%s: task %d was executed although every dependency it had recorded is consistent: the tasks it required have, once made consistent, outputs its checkers accept, and the resources it read or wrote are unchanged' % (where, t)))
 
+        # ---- C09 (converse): a task that was validated in this session and NOT executed was reused, so every resource dependency it had
+        # recorded must be consistent by its own checker on its own stamp (a verdict borrowed from another dependency is not enough)
+        if q_only and not ab and not had_abort and not s.errs and not prog.uses_failing and prev_nodes and s.pre_map is not None:
+            seen = set()
+            for e in s.events:
+                f = e.split()
+                if f[0] in ('RS', 'CTS'): seen.add(int(f[1]))
+            for t in sorted(seen):
+                if t in counts: continue
+                nd = prev_nodes.get('T%d' % t)
+                if nd is None or nd['out'] == '-': continue
+                for (k, tgt, c, st) in nd['outs']:
+                    if k not in ('R', 'W'): continue
+                    r = tgt[1:]
+                    if not r.isdigit() or s.pre_map.get(int(r)) != s.map.get(int(r)): continue      # content changed during the session: not judged here
+                    if res_check(c, s.pre_map.get(int(r)), st) is False:
+                        out.append(('C09', 'reused-with-inconsistent-dependency', '%s: task %d was validated and reused although its recorded %s dependency on %s (checker %s, stamp %s) is inconsistent with the current content %r by its own checker' % (where, t, 'read' if k == 'R' else 'write', tgt, c, st, s.pre_map.get(int(r)))))
+                        break
+
         # ---- C03: probe after a complete bottom-up build
         if s.step in meta.get('probe_steps', {}) and ab and not had_abort and wf and not prog.uses_failing:
             out.append(('C03', 'probe-aborts-after-bottom-up', '%s: after the bottom-up build, requiring the known tasks aborted (%s) instead of returning their up-to-date outputs' % (where, ','.join(kinds))))
@@ -622,8 +641,12 @@ def stale_owner_status(s, kind, prev_nodes):
     if kind in ('overlap', 'hidden') and last[0] in ('wS', 'rS'):
         r = 'R' + last[1]
         nd = prev_nodes.get(r, {'ins': []})
-        owners = [src for (k, src) in nd['ins'] if k in (('W',) if kind == 'overlap' else ('W', 'R'))]
+        # what can be stale: for an overlap and for a hidden dependency found on the READ side a recorded writer, for one found on the WRITE side a recorded reader
+        owners = [src for (k, src) in nd['ins'] if k in (('W',) if (kind == 'overlap' or last[0] == 'rS') else ('R',))]
         vis = [o for o in owners if o in visited]
+        if not owners:
+            # the recorded role-inversion findings need a dependency recorded in an EARLIER state; without one nothing stale explains the abort
+            return '-no-recorded-dependency', ' (no task held a recorded dependency on %s when this session began: nothing stale explains the abort)' % r
         if owners and len(vis) == len(owners):
             return '-owner-visited', ' (every task holding a recorded dependency on %s was already validated in this session)' % r
         return '', ''
